@@ -113,6 +113,12 @@ class PfWorld(World):
                 A = np.diag(HOMOG[len(self.un)][self.homog[0]]) * self.homog[1]
                 X = np.asarray(m.coord)[:, : len(self.un)]
                 U = X @ A.T
+                if len(self.homog) > 2 and self.homog[2] is not None:
+                    # another degenerate pattern on the other half of the body: one call of the decomposition then sees
+                    # points of both kinds (and, in the elements that straddle the cut, generic ones)
+                    A2 = np.diag(HOMOG[len(self.un)][self.homog[2]]) * self.homog[1]
+                    right = X[:, 0] > np.median(X[:, 0])
+                    U[right] = X[right] @ A2.T
                 nodes = np.arange(m.Nn)
                 for k, comp in enumerate(self.un):
                     sim.add_dirichlet(nodes, [U[:, k].copy()], [comp])
@@ -142,6 +148,8 @@ class PfWorld(World):
                 op.update(mode="zero")
             else:
                 op.update(mode=["increase", "increase", "decrease", "reverse", "zero", "shear", "rigid", "homog"][int(rng.integers(8))], amp=float(np.round(rng.uniform(0.005, 0.06), 4)))
+                if op["mode"] == "homog" and rng.random() < 0.5:
+                    op["pattern2"] = int(rng.integers(8))
                 if op["mode"] == "homog":
                     op["pattern"] = int(rng.integers(8))
         elif name == "solve":
@@ -272,7 +280,7 @@ class PfWorld(World):
                 ux = ux + op["amp"]
             elif m == "homog":
                 pats = HOMOG[len(self.un)]
-                self.homog = (op["pattern"] % len(pats), op["amp"] * 0.2)
+                self.homog = (op["pattern"] % len(pats), op["amp"] * 0.2, (op["pattern2"] % len(pats)) if "pattern2" in op else None)
                 self.zero = False
                 ctx.probe("homogeneous_degenerate_strain")
             elif m == "rigid":
